@@ -202,7 +202,8 @@ def explore_submit_backend(ctx):
     if "submit_backend_paths" in ctx.shared:
         return ctx.shared["submit_backend_paths"]
     idx = ctx.index
-    sb = idx.func("gwf.scheduling:submit_backend")
+    from ..inline import inlined
+    sb = inlined(ctx, idx.func("gwf.scheduling:submit_backend"))     # private helpers the submit/record steps were moved into are read in place
     params = sb.positional_params()
     backend_p = params[2] if len(params) > 2 else "backend"
     hashes_p = params[3] if len(params) > 3 else "spec_hashes"
@@ -242,7 +243,15 @@ def rule_hash_after_accept(ctx, r):
         r.violation(con + "::hash-after-accept", "an accepted submission does not record the target's spec hash: with hashing on it is resubmitted by every run",
                     sb.where, fmt_trace(none[0].state, sb.module))
     elif not any(o.state.facts.get("submitted") for o in outs):
-        r.violation(con + "::hash-after-accept", "submit_backend never calls backend.submit", sb.where)
+        # the submit/record steps are not visible in this function (moved behind helpers the inliner does not follow): the run command evaluated with a rejected
+        # k-th submission decides
+        from .evalhelpers import cached_witness, run_command_witness
+        n_w, diffs, unsup = cached_witness(ctx, "run", run_command_witness)
+        diffs = [d for d in diffs if "hash" in d or "ends with" in d or "submits" in d]
+        if unsup is None and not diffs:
+            r.ok(con + "::hash-after-accept", f"shape not recognised; {n_w} evaluated invocations of `gwf run` (k-th submission rejected) record hashes for exactly the accepted submissions", sb.where)
+        else:
+            r.violation(con + "::hash-after-accept", "submit_backend never calls backend.submit" + (f" ({diffs[0]})" if diffs else ""), sb.where)
     else:
         r.ok(con + "::hash-after-accept", f"{len(outs)} path(s): update only after submit returned; a raising submit leaves the hash untouched", sb.where)
 
